@@ -231,8 +231,18 @@ impl FaultScenario {
                         None => false,
                     };
                     if !ok {
+                        let goff = (b * BLK) as u64;
+                        let targeted = hist.iter().any(|op| match op {
+                            Op::Write { off, len, .. } => goff >= *off && goff < *off + *len as u64,
+                            Op::Discard { off, len } => goff >= *off && goff < off.saturating_add(*len),
+                            _ => false,
+                        });
                         out.push(self.viol(
-                            format!("acknowledged-data-lost-after-heal:got-{}", classify_word(got[b])),
+                            format!(
+                                "{}:got-{}",
+                                if targeted { "acknowledged-data-lost-after-heal" } else { "untargeted-block-changed-after-heal" },
+                                classify_word(got[b])
+                            ),
                             format!(
                                 "after healing, flush_meta and reopen guest block {:#x} reads {} but only {:?} are explained by the acknowledged operations",
                                 b * BLK,
